@@ -2,6 +2,7 @@ SPECIFICATION Spec
 CONSTANTS
   Mode = "enum"
   UseBindings = {"math", "vmod", "vmod2"}
+  BlankBindings = {"math"}
   SitePatterns <- QuickPatterns
   SelShapes = {}
   KeepTrace = FALSE
